@@ -3,12 +3,13 @@
 From Coq Require Import List Bool Arith NArith ZArith String Ascii.
 Require Extraction.
 Require Import ExtrOcamlBasic.
-Require Import Stab Act Gen_GateTable.
+Require Import Stab Act Spec GF2 Gen_GateTable.
 Extraction Language OCaml.
 Set Extraction Optimize.
 Cd "/verif/coq".
 Extraction "sv.ml"
   Stab.check_record Stab.forms_of Stab.gmul Stab.ph Stab.anti Stab.bxor
+  Spec.srun Spec.consistent Spec.check_record_ext Spec.deterministic_form Spec.coin_part
   Act.gate_named Act.gate_aliased Act.gate_id Act.inverse_of Act.flows_of Act.local1 Act.local2 Act.run1 Act.run2
   Act.unitary1 Act.unitary2 Act.e_name Act.e_id Act.e_flags Act.e_flows Act.e_nargs
   Gen_GateTable.gate_table Gen_GateTable.hash_table.
